@@ -203,6 +203,9 @@ def check_kernel_quadrature(chk, r, n_cases):
             # (a fitted scale below one makes the preconditioned coordinate LARGER than the native one)
             spread = 0.9 if t % 2 == 0 else 0.12
             xfit = np.random.default_rng(cfg["fit_seed"]).uniform(-spread * half, spread * half, (40, 1))
+            if t % 4 >= 2:
+                # the preconditioning object is REFITTED at every iteration: an earlier fit, on particles with another spread, came first
+                s.fit_preconditioning_transform(xp.asarray(xfit * (0.35 if spread > 0.5 else 3.0)))
             s.fit_preconditioning_transform(xp.asarray(xfit))
             unbounded = bool(pc and pc.get("bounded_to_unbounded"))
             eps = 1e-13 * 2 * half if unbounded else 1e-12 * half   # (the upper edge itself wraps under the periodic map)
@@ -240,18 +243,23 @@ def check_kernel_quadrature(chk, r, n_cases):
 def true_values(cfg):
     from scipy.stats import norm
 
-    d, c, w, h = cfg["dims"], cfg["like_center"], cfg["like_width"], cfg["half"]
-    a, b = (-h - c) / w, (h - c) / w
-    mass = norm.cdf(b) - norm.cdf(a)
-    Z1 = w * math.sqrt(2 * math.pi) * mass / (2 * h)
-    mean = c + w * (norm.pdf(a) - norm.pdf(b)) / mass
-    return Z1 ** d, mean
+    d, w = cfg["dims"], cfg["like_width"]
+    cs = np.broadcast_to(np.asarray(cfg["like_center"], dtype=float), (d,))
+    hs = np.broadcast_to(np.asarray(cfg["half"], dtype=float), (d,))
+    Z, mean0 = 1.0, None
+    for c, h in zip(cs.tolist(), hs.tolist()):
+        a, b = (-h - c) / w, (h - c) / w
+        mass = norm.cdf(b) - norm.cdf(a)
+        Z *= w * math.sqrt(2 * math.pi) * mass / (2 * h)
+        if mean0 is None:
+            mean0 = c + w * (norm.pdf(a) - norm.pdf(b)) / mass
+    return Z, mean0
 
 
 def true_variance(cfg):
     from scipy.stats import truncnorm
 
-    c, w, h = cfg["like_center"], cfg["like_width"], cfg["half"]
+    c, w, h = (float(np.atleast_1d(np.asarray(cfg[k], dtype=float))[0]) for k in ("like_center", "like_width", "half"))
     return float(truncnorm.var((-h - c) / w, (h - c) / w, loc=c, scale=w))
 
 
@@ -265,7 +273,11 @@ def check_replicates(chk, r, quick):
     preconds = [("none", None), ("logit", {"bounded_to_unbounded": True, "bounded_transform": "logit", "affine_transform": False}),
                 ("probit+affine", {"bounded_to_unbounded": True, "bounded_transform": "probit", "affine_transform": True}),
                 ("periodic", {"bounded_to_unbounded": False, "affine_transform": False, "periodic": [0]})]
-    configs = []
+    # a box with DIFFERENT sides and two periodic parameters, named in `periodic_parameters` in another order than in `parameters`; the mode
+    # of the first coordinate lies outside the range of the second one
+    two_periodic = dict(like_center=[3.0, -0.6], like_width=0.3, half=[4.0, 2.0], dims=2, prop_kind="gauss", prop_mu=[2.6, -0.5], prop_sigma=[0.5, 0.45])
+    configs = [("two_periodic_ranges", "minipcn_smc", "periodic[1,0]", {"bounded_to_unbounded": False, "affine_transform": False, "periodic": [1, 0]}, two_periodic),
+               ("two_periodic_ranges", "minipcn_smc", "periodic[1,0]+affine", {"bounded_to_unbounded": False, "affine_transform": True, "periodic": [1, 0]}, two_periodic)]
     for tname, tc in targets:
         configs.append((tname, "importance", "none", None, tc))
         for pname, pc in preconds:
@@ -290,7 +302,7 @@ def check_replicates(chk, r, quick):
             configs.append((tname, "minipcn_smc", "none/interrupted=resumed-from-last", None, {**tc, "interrupted": "last"}))
             configs.append((tname, "minipcn_smc", "logit/interrupted=rewound-to-first-dict", preconds[1][1], {**tc, "interrupted": "first-dict"}))
     if quick:
-        configs = [c for i, c in enumerate(configs) if i % 2 == 0 or c[2] in ("logit",) or "=" in c[2]]
+        configs = [c for i, c in enumerate(configs) if i % 2 == 0 or c[2] in ("logit",) or "=" in c[2] or c[0] == "two_periodic_ranges"]
     summary = []
     for tname, sampler, pname, pc, tc in configs:
         cfg0 = {"sampler": sampler, "n_samples": 400 if sampler == "importance" else 64, "kernel_steps": 6, "precond": pc, **tc}
@@ -344,7 +356,8 @@ def check_replicates(chk, r, quick):
             from scipy.stats import norm
             p_in = 1.0
             if cfg0.get("prop_kind") == "gauss":
-                p_in = float(norm.cdf((cfg0["half"] - cfg0["prop_mu"]) / cfg0["prop_sigma"]) - norm.cdf((-cfg0["half"] - cfg0["prop_mu"]) / cfg0["prop_sigma"])) ** cfg0["dims"]
+                bc = lambda k: np.broadcast_to(np.asarray(cfg0[k], dtype=float), (cfg0["dims"],))   # noqa: E731
+                p_in = float(np.prod(norm.cdf((bc("half") - bc("prop_mu")) / bc("prop_sigma")) - norm.cdf((-bc("half") - bc("prop_mu")) / bc("prop_sigma"))))
             chk.fail("replicate-averaged Z_hat/Z inside calibrated bounds (exploration)", case,
                      f"mean Z_hat/Z = {ratios.mean():.4f} +- {se:.4f} over {R} replicates (proposal mass inside the prior support {p_in:.3f}, 1/that = {1 / p_in:.3f})",
                      {"level": "replicates", "clause": "evidence", "sampler": sampler, "preconditioning": pname, "leaking_proposal": p_in < 0.98,
